@@ -70,6 +70,44 @@ def file_cases(tier, seed):
     # clones of one entity streamed concurrently on several threads
     for i in range(3 if not T else 10):
         add(kind="concurrent", size=rng.choice([200001, 4 * 65536 + 3]), threads=4 + (i % 3), reps=40 if not T else 150)
+    for c in big_and_odd_cases(tier, rng):
+        add(**c)
+    return cases
+
+
+def big_and_odd_cases(tier, rng):
+    """Sparse files with lengths / offsets / range lengths around 2^31, 2^32, 2^33 (first chunks only),
+    and regular files whose reads come back short (kernel-generated)."""
+    T = tier == "thorough"
+    out = []
+    G = 1 << 32
+    sizes = [G + 5, G, G - 1, 2 * G + 1, (1 << 31) + 7, 3 * G, (1 << 33) + 65536 + 1]
+    for size in sizes:
+        rs = [(0, size), (5, size), (size - G, size), (size - G - 1, size), (0, G), (1, G + 1), (size - 3, size),
+              (size - 65536 - 1, size), (G - 65536, G + 65536), ((1 << 31) - 1, (1 << 31) + 70000)]
+        rs = [(max(a, 0), min(b, size)) for a, b in rs]
+        rs = sorted(set((a, b) for a, b in rs if a <= b))
+        if not T:
+            rng.shuffle(rs)
+            rs = rs[:5]
+        for a, b in rs:
+            out.append(dict(kind="sparse", size=size, a=a, b=b, polls=rng.choice([3, 5]), mt_s=1000000000 + rng.randrange(1000),
+                            mt_ns=rng.choice([0, 999999999])))
+    # [permille of the length, offset, length]
+    ranges = [[0, 0, 70000], [0, 1, 1], [0, 4095, 4098], [500, 3, 200000], [990, 0, 10 ** 9], [1000, 0, 0], [250, 65535, 65538]]
+    for _ in range(8 if T else 2):
+        ranges.append([rng.randrange(0, 1000), rng.randrange(0, 70000), rng.randrange(1, 300000)])
+    out.append(dict(kind="oddfile", path="/sys/kernel/btf/vmlinux", ranges=ranges))
+    return out
+
+
+def odd_cases(tier, seed):
+    rng = random.Random(seed)
+    cases = []
+    for c in big_and_odd_cases(tier, rng):
+        if c["kind"] == "oddfile":
+            c["id"] = len(cases) + 1
+            cases.append(c)
     return cases
 
 
